@@ -1,85 +1,100 @@
 import SockModel.Drive.Common
 import SockModel.Drive.C02
 import SockModel.Model.Dispatch
+import SockModel.Spec.C03
 /-! Driver for C03: validates async-event transcripts (`harness/scen/async_events.cpp`) against
 `Model/Dispatch.lean` (correspondence; the chunk sizes the implementation received are the model's
 segmentation oracle, validated to lie in `1..rxBufSize`) and evaluates the property directly on
-the observations (reference bookkeeping per connection: stream sent, bytes delivered, closed,
-disconnected; per acceptor: connections waiting). -/
+the observations: every op line with its observation lines is parsed into ONE typed observation
+`Spec.Obs` and handed to `Spec.specStep` of `Spec/C03.lean` - the predicate that is proved there to
+accept every trace of the model (`model_satisfies_spec`).  No property clause is evaluated here; only
+`crash` / `hang` lines (the generic "never crashes" clause of the framework) are turned into `spec`
+verdicts directly. -/
 namespace SockModel.Drive.C03
 open SockModel SockModel.Drive SockModel.Dispatch
-open SockModel.AsyncQ (Bytes fnv)
+open SockModel.AsyncQ (Bytes)
 open SockModel.Drive.C02 (takeObs)
+open SockModel.Dispatch.Spec
+
+/-- the hash of `Spec/C03.lean` is the one the other drivers use -/
+example : @Spec.fnv = @SockModel.AsyncQ.fnv := rfl
 
 def pat (id j : Nat) : UInt8 := UInt8.ofNat ((id * 37 + j * 11 + (j / 251) * 3 + 1) % 256)
 def segment (id off len : Nat) : Bytes := (List.range len).map (fun j => pat id (off + j))
 
 def noLimit : Nat := 2 ^ 30
 
-/-- reference bookkeeping of one connection (observations only) -/
-structure SConn where
-  i : Nat
-  stream : Bytes := []
-  delivered : Nat := 0
-  ended : Bool := false
-  registered : Bool := false      -- the library has an async socket for it
-  gone : Bool := false            -- disconnected or destroyed: no handler may run any more
-  rx : Nat := 1
-  deriving Repr
-
-structure SAcc where
-  a : Nat
-  waiting : List Nat := []
-  gone : Bool := false
-  deriving Repr
-
 structure CSt where
   m : St := {}
   ids : List (Nat × Nat) := []          -- harness ordinal ↦ model id
   rx : Nat := 64
-  arm : List (Nat × Nat) := []          -- harness ordinal ↦ queued sends
   onev : List (Nat × Nat) := []
-  conns : List SConn := []
-  accs : List SAcc := []
+  sp : SpecSt := {}                    -- the observer's book-keeping of `Spec/C03.lean` (observations only, no model state)
   corrFail : Option String := none     -- first correspondence failure (the scan goes on looking for a property failure)
   tags : List String := []
 
-def lookup {α} (l : List (Nat × α)) (k : Nat) : Option α := (l.find? (·.1 = k)).map (·.2)
 def CSt.idOf (c : CSt) (i : Nat) : Nat := (lookup c.ids i).getD 99999
 def CSt.ordOf (c : CSt) (id : Nat) : Nat := ((c.ids.find? (·.2 = id)).map (·.1)).getD 99999
-def CSt.conn (c : CSt) (i : Nat) : Option SConn := c.conns.find? (·.i = i)
-def CSt.setConn (c : CSt) (k : SConn) : CSt :=
-  { c with conns := if c.conns.any (·.i = k.i) then c.conns.map (fun x => if x.i = k.i then k else x) else c.conns ++ [k] }
-def CSt.acc (c : CSt) (a : Nat) : Option SAcc := c.accs.find? (·.a = a)
-def CSt.setAcc (c : CSt) (k : SAcc) : CSt :=
-  { c with accs := if c.accs.any (·.a = k.a) then c.accs.map (fun x => if x.a = k.a then k else x) else c.accs ++ [k] }
 def CSt.effRx (c : CSt) : Nat := if c.rx = 0 then noLimit else c.rx
-
-/-- is anything owed to a live socket (reference view)? -/
-def CSt.owed (c : CSt) : Option String :=
-  match c.conns.find? (fun k => k.registered ∧ ¬ k.gone ∧ (k.delivered < k.stream.length ∨ k.ended)) with
-  | some k => some s!"connection {k.i} has {k.stream.length - k.delivered} undelivered byte(s){if k.ended then " and an unreported close" else ""}"
-  | none =>
-    match c.accs.find? (fun a => ¬ a.gone ∧ ¬ a.waiting.isEmpty) with
-    | some a => some s!"acceptor {a.a} has {a.waiting.length} unreported connection(s)"
-    | none =>
-      match c.arm.find? (fun (i, n) => decide (n > 0) && (match c.conn i with | some k => k.registered && !k.gone | none => false)) with
-      | some (i, _) => some s!"socket {i} has a queued send"
-      | none => none
 
 def renderEvent (c : CSt) : Event → String
   | .data s b _ => s!"data {c.ordOf s} {b.length} {fnv b}"
   | .disconnect s a r => s!"disconnect {c.ordOf s} {a} {match r with | .eof => "eof" | .fail => "fail" | .poll => "poll"} reg=0"
   | .connect a k addr => s!"connect {c.ordOf a} {c.ordOf k} {addr}"
 
-/-- mark sockets destroyed (by the user, possibly inside a handler) in the reference bookkeeping -/
-def CSt.markDestroyed (c : CSt) (j : Nat) : CSt :=
-  let c := match c.conn j with
-    | some k => if k.registered then c.setConn { k with gone := true } else c
-    | none => c
-  match c.acc j with
-  | some a => c.setAcc { a with gone := true }
-  | none => c
+/-! ### parsing of observation lines into the typed observations of `Spec/C03.lean` -/
+
+/-- a number exactly as printed, or the text -/
+def tok (s : String) : Tok :=
+  match s.toNat? with
+  | some n => if toString n == s then .ord n else .other s
+  | none => .other s
+
+/-- one `ev ...` line (words) -/
+def parseEv (o : List String) : Ev :=
+  match o with
+  | ["ev", "data", i, len, hash, _] =>
+    match i.toNat?, len.toNat? with
+    | some i, some len => .data i len (tok hash)
+    | _, _ => .bad "bad data event"
+  | ["ev", "disconnect", i, addr, reason, _, _] =>
+    match i.toNat? with
+    | some i => .disconnect i (tok addr) reason
+    | none => .bad "bad disconnect event"
+  | ["ev", "connect", a, sockOrd, addr, _] =>
+    match a.toNat? with
+    | some a => .connect a (tok sockOrd) (tok addr)
+    | none => .bad "bad connect event"
+  | o => .bad s!"unparsable events {[o]}"
+
+/-- the observations following a `step` line -/
+def parseStep (rx : Nat) (obs : List (List String)) : StepObs :=
+  let evs := obs.filter (fun o => o.head? == some "ev" ∧ o.getD 1 "" ≠ "destroyed")
+  { rx := rx
+    threw := (obs.find? (fun o => o.head? == some "throw")).map (fun o => " ".intercalate (o.drop 1))
+    evs := evs.map (fun o => { ev := parseEv o, onStepThread := o.getLast? == some "t=1", text := " ".intercalate o })
+    sends := (obs.filter (fun o => o.head? == some "sys")).map fun o =>
+      match o with
+      | ["sys", "send", i, _, _] => some (i.toNat?.getD 0)
+      | _ => none
+    destroyed := (obs.filter (fun o => o.take 2 == ["ev", "destroyed"])).filterMap (fun o => (o.getD 2 "").toNat?) }
+
+/-- branch tag of a step (evidence only) -/
+def stepTag (sp : SpecSt) (o : StepObs) : String :=
+  match o.evs with
+  | [] => if o.sends.isEmpty then "step.idle" else "step.send"
+  | e :: _ =>
+    match e.ev with
+    | .data i len _ => if (sp.conn i).map (·.rx) == some len then "data.full" else "data"
+    | .disconnect _ _ reason => "disconnect." ++ reason
+    | .connect _ _ _ => "connect"
+    | .bad _ => "?"
+
+/-- the chunk size the implementation received (the model's segmentation oracle) -/
+def stepChunk (o : StepObs) : Nat :=
+  match o.evs with
+  | [e] => match e.ev with | .data _ len _ => len | _ => 0
+  | _ => 0
 
 partial def go (c : CSt) : List String → Verdict
   | [] => match c.corrFail with | some m => Verdict.corr m c.tags | none => { tags := c.tags }
@@ -98,110 +113,51 @@ partial def go (c : CSt) : List String → Verdict
       match obs.find? (fun o => o.take 2 == ["throw", "harness"]) with
       | some o => Verdict.corr s!"after '{l}': {" ".intercalate o}" c.tags
       | none =>
+      -- the property: feed one typed observation to `Spec.specStep`; a rejection is the verdict
+      let feed (c : CSt) (o : Obs) (k : CSt → Verdict) : Verdict :=
+        match specStep c.sp o with
+        | .error msg => Verdict.spec s!"after '{l}': {msg}" c.tags
+        | .ok sp => k { c with sp := sp }
       let nonStepObs := w.head? != some "step" ∧ obs.any (fun o => o.head? == some "ev" ∨ o.head? == some "throw")
-      if nonStepObs then Verdict.spec s!"after '{l}': a handler ran / an exception escaped outside Step" c.tags else
+      if nonStepObs then feed c .outside (fun c => go c rest') else
       match w with
       | ["rx", _, size] => go { c with rx := size.toNat?.getD 64 } rest'
       | ["client", i] =>
         let i := i.toNat?.getD 0
         let id := c.m.nextId
         let c := { c with m := apply Consts.dispatchOrder c.m (.newClient i c.effRx), ids := c.ids ++ [(i, id)], tags := "client" :: c.tags }
-        go (c.setConn { i := i, registered := true, rx := c.effRx }) rest'
+        feed c (.client i (.ord i) c.effRx) (fun c => go c rest')
       | ["acceptor", a] =>
         let a := a.toNat?.getD 0
         let id := c.m.nextId
         let c := { c with m := apply Consts.dispatchOrder c.m .newAcceptor, ids := c.ids ++ [(a, id)], tags := "acceptor" :: c.tags }
-        go (c.setAcc { a := a }) rest'
+        feed c (.acceptor a) (fun c => go c rest')
       | ["pconnect", a, i] =>
         let a := a.toNat?.getD 0
         let i := i.toNat?.getD 0
         let id := c.m.nextId
         let c := { c with m := apply Consts.dispatchOrder c.m (.peerConnect (c.idOf a) i), ids := c.ids ++ [(i, id)], tags := "pconnect" :: c.tags }
-        let c := match c.acc a with | some k => c.setAcc { k with waiting := k.waiting ++ [i] } | none => c
-        go (c.setConn { i := i }) rest'
+        feed c (.pconnect a i (.ord i)) (fun c => go c rest')
       | ["send", i, len] =>
         let i := i.toNat?.getD 0
         let len := len.toNat?.getD 0
-        match c.conn i with
+        match c.sp.conn i with
         | none => Verdict.corr s!"send on unknown connection {i}" c.tags
         | some k =>
           let bytes := segment i k.stream.length len
-          let c := c.setConn { k with stream := k.stream ++ bytes }
-          go { c with m := apply Consts.dispatchOrder c.m (.peerSend (c.idOf i) bytes), tags := "send" :: c.tags } rest'
+          feed c (.send i bytes) fun c =>
+            go { c with m := apply Consts.dispatchOrder c.m (.peerSend (c.idOf i) bytes), tags := "send" :: c.tags } rest'
       | ["onev", i, j] => go { c with onev := c.onev ++ [(i.toNat?.getD 0, j.toNat?.getD 0)] } rest'
       | "step" :: mode =>
         let evs := obs.filter (fun o => o.head? == some "ev" ∧ o.getD 1 "" ≠ "destroyed")
-        let destroyed := (obs.filter (fun o => o.take 2 == ["ev", "destroyed"])).filterMap (fun o => (o.getD 2 "").toNat?)
-        let sys := obs.filter (fun o => o.head? == some "sys")
-        match obs.find? (fun o => o.head? == some "throw") with
-        | some o => Verdict.spec s!"after '{l}': Step threw: {" ".intercalate (o.drop 1)}" c.tags
-        | none =>
-        if evs.length + sys.length > 1 then Verdict.spec s!"after '{l}': more than one socket task in one step ({evs.length} handler calls, {sys.length} sends)" c.tags else
-        match evs.find? (fun o => o.getLast? != some "t=1") with
-        | some o => Verdict.spec s!"after '{l}': handler ran on a thread other than the one executing Step: {" ".intercalate o}" c.tags
-        | none =>
+        let so := parseStep c.effRx obs
         -- 1. the property on the observations
-        let specRes : Except String (CSt × Nat × String) :=
-          match evs with
-          | [] =>
-            if sys.isEmpty then
-              match c.owed with
-              | some what => .error s!"Step did nothing although {what}"
-              | none => .ok (c, 0, "step.idle")
-            else .ok (c, 0, "step.send")
-          | [["ev", "data", i, len, hash, _]] =>
-            match i.toNat?, len.toNat? with
-            | some i, some len =>
-              match c.conn i with
-              | none => .error s!"receive handler for unknown socket {i}"
-              | some k =>
-                if k.gone then .error s!"receive handler of socket {i} ran after its disconnect / destruction"
-                else if len = 0 then .error s!"receive handler of socket {i} got an empty chunk"
-                else if len > k.rx then .error s!"receive handler of socket {i} got {len} bytes, more than its buffer size {k.rx}"
-                else
-                  let want := (k.stream.drop k.delivered).take len
-                  if want.length ≠ len ∨ hash ≠ toString (fnv want) then
-                    .error s!"receive handler of socket {i} got {len} bytes (hash {hash}) that are not the next bytes the peer sent (offset {k.delivered} of {k.stream.length})"
-                  else .ok (c.setConn { k with delivered := k.delivered + len }, len, if len = k.rx then "data.full" else "data")
-            | _, _ => .error "bad data event"
-          | [["ev", "disconnect", i, addr, reason, _, _]] =>
-            match i.toNat? with
-            | some i =>
-              match c.conn i with
-              | none => .error s!"disconnect handler for unknown socket {i}"
-              | some k =>
-                if k.gone then .error s!"disconnect handler of socket {i} ran a second time / after destruction"
-                else if ¬ k.ended then .error s!"disconnect handler of socket {i} ran ({reason}) although the peer neither closed nor reset"
-                else if k.delivered ≠ k.stream.length then
-                  .error s!"disconnect handler of socket {i} ran with {k.stream.length - k.delivered} byte(s) the peer sent before closing still undelivered"
-                else if addr ≠ toString i then .error s!"disconnect handler of socket {i} got address {addr}, the socket was created for {i}"
-                else .ok (c.setConn { k with gone := true }, 0, "disconnect." ++ reason)
-            | none => .error "bad disconnect event"
-          | [["ev", "connect", a, sockOrd, addr, _]] =>
-            match a.toNat? with
-            | some a =>
-              match c.acc a with
-              | none => .error s!"connect handler for unknown acceptor {a}"
-              | some k =>
-                if k.gone then .error s!"connect handler of acceptor {a} ran after its destruction"
-                else match k.waiting with
-                  | [] => .error s!"connect handler of acceptor {a} ran although no connection is waiting (duplicate)"
-                  | i :: more =>
-                    if addr ≠ toString i then .error s!"connect handler of acceptor {a} reports peer {addr}, the next established connection is {i}"
-                    else if sockOrd ≠ toString i ∧ ¬ (sockOrd = "?unusable" ∧ ((c.conn i).map (·.ended)).getD false) then
-                      .error s!"connect handler of acceptor {a}: the socket handed over is connected to {sockOrd}, not to {i}"
-                    else
-                      let c := c.setAcc { k with waiting := more }
-                      let c := match c.conn i with | some x => c.setConn { x with registered := true, rx := c.effRx } | none => c
-                      .ok (c, 0, "connect")
-            | none => .error "bad connect event"
-          | o => .error s!"unparsable events {o}"
-        match specRes with
-        | .error msg => Verdict.spec s!"after '{l}': {msg}" c.tags
-        | .ok (c, chunk, tag) =>
-          let c := destroyed.foldl (fun c j => c.markDestroyed j) c
+        let sp0 := c.sp
+        feed c (.step so) fun c =>
+          let chunk := stepChunk so
+          let tag := stepTag sp0 so
           -- 2. correspondence with the model
-          let hdl := destroyed.map c.idOf
+          let hdl := so.destroyed.map c.idOf
           let before := c.m.log.length
           let task := firstTask Consts.dispatchOrder c.m c.m.socks
           let m' := apply Consts.dispatchOrder c.m (.step false chunk c.effRx hdl)
@@ -213,7 +169,7 @@ partial def go (c : CSt) : List String → Verdict
             | _ => " ".intercalate ((o.drop 1).dropLast)
           let wroteModel : Bool := match task with | some (_, .writable) => true | _ => false
           let wroteModelOrd := match task with | some (k, .writable) => c.ordOf k.id | _ => 0
-          let wroteImpl := match sys with | [["sys", "send", i, _, _]] => some (i.toNat?.getD 0) | _ => none
+          let wroteImpl := match so.sends with | [some i] => some i | _ => none
           let corr : Option String :=
             if newEvents ≠ gotEvents then
               some s!"after '{l}': handler calls impl {gotEvents} model {newEvents}"
@@ -221,40 +177,34 @@ partial def go (c : CSt) : List String → Verdict
               some s!"after '{l}': writable task impl {repr wroteImpl} model {wroteModel} (socket {wroteModelOrd})"
             else none
           let c := if c.corrFail.isNone then { c with corrFail := corr } else c
-          (
-            -- queued sends: one is consumed by a writable task; re-arm if more are queued
-            let (m'', arm') : St × List (Nat × Nat) := match wroteImpl with
-              | some i =>
-                let n := (lookup c.arm i).getD 0
-                let arm' : List (Nat × Nat) := (c.arm.filter (fun x => x.1 ≠ i)) ++ [(i, n - 1)]
-                (if n - 1 > 0 then apply Consts.dispatchOrder m' (.wantSend (c.idOf i)) else m', arm')
-              | none => (m', c.arm)
-            -- the handlers configured to destroy: consumed when the handler of that socket ran
-            let ranOn : Option Nat := match evs with
-              | [o] => (o.getD 2 "").toNat?
-              | _ => none
-            let onev' : List (Nat × Nat) := match ranOn with | some i => c.onev.filter (fun x => x.1 ≠ i) | none => c.onev
-            let tags := (if mode == ["thread"] then ["step.thread"] else []) ++
-                        (if destroyed.isEmpty then [] else ["handler.destroys"]) ++ [tag] ++ c.tags
-            go { c with m := m'', arm := arm', onev := onev', tags := tags } rest')
+          -- queued sends: one was consumed by a writable task (`SpecSt.wrote`); re-arm the model if more are queued
+          let m'' : St := match wroteImpl with
+            | some i => if (lookup sp0.arm i).getD 0 - 1 > 0 then apply Consts.dispatchOrder m' (.wantSend (c.idOf i)) else m'
+            | none => m'
+          -- the handlers configured to destroy: consumed when the handler of that socket ran
+          let ranOn : Option Nat := match evs with
+            | [o] => (o.getD 2 "").toNat?
+            | _ => none
+          let onev' : List (Nat × Nat) := match ranOn with | some i => c.onev.filter (fun x => x.1 ≠ i) | none => c.onev
+          let tags := (if mode == ["thread"] then ["step.thread"] else []) ++
+                      (if so.destroyed.isEmpty then [] else ["handler.destroys"]) ++ [tag] ++ c.tags
+          go { c with m := m'', onev := onev', tags := tags } rest'
       | [op, i] =>
         let i := i.toNat?.getD 0
         if op = "close" ∨ op = "rst" then
-          match c.conn i with
+          match c.sp.conn i with
           | none => Verdict.corr s!"close of unknown connection {i}" c.tags
-          | some k =>
-            let c := c.setConn { k with ended := true }
-            go { c with m := apply Consts.dispatchOrder c.m (if op = "rst" then .peerRst (c.idOf i) else .peerClose (c.idOf i)),
-                        tags := op :: c.tags } rest'
+          | some _ =>
+            feed c (.close i) fun c =>
+              go { c with m := apply Consts.dispatchOrder c.m (if op = "rst" then .peerRst (c.idOf i) else .peerClose (c.idOf i)),
+                          tags := op :: c.tags } rest'
         else if op = "arm" then
-          let n := (lookup c.arm i).getD 0
-          let live : Bool := match c.conn i with | some k => k.registered && !k.gone | none => false
-          let tag := if live then "arm" else "arm.unregistered"
-          go { c with m := apply Consts.dispatchOrder c.m (.wantSend (c.idOf i)),
-                      arm := (c.arm.filter (·.1 ≠ i)) ++ [(i, n + 1)], tags := tag :: c.tags } rest'
+          let tag := if c.sp.live i then "arm" else "arm.unregistered"
+          feed c (.arm i) fun c =>
+            go { c with m := apply Consts.dispatchOrder c.m (.wantSend (c.idOf i)), tags := tag :: c.tags } rest'
         else if op = "destroy" then
-          let c := c.markDestroyed i
-          go { c with m := apply Consts.dispatchOrder c.m (.destroy (c.idOf i)), tags := "destroy" :: c.tags } rest'
+          feed c (.destroy i) fun c =>
+            go { c with m := apply Consts.dispatchOrder c.m (.destroy (c.idOf i)), tags := "destroy" :: c.tags } rest'
         else if op = "step" then Verdict.corr s!"bad step line {l}" c.tags
         else Verdict.corr s!"unknown line {l}" c.tags
       | _ => Verdict.corr s!"unknown line {l}" c.tags
